@@ -114,6 +114,11 @@ TEMPLATES = ["%s AND %s OR %s", "(%s OR %s) AND f:%s", "f:(%s %s) AND -%s", "%s 
 EDIT_TEMPLATES = ["%s AND %s OR %s", "(%s OR %s) AND f:%s", "%s %s %s", "f:\"%s %s\"~2 OR (%s AND (%s OR %s))",
                   "\"%s\n%s\" AND %s", "[%s TO %s] OR g:(%s)", "%s AND (%s OR (%s AND (%s OR %s)))",
                   "f:(%s %s) OR %s"]
+LOOKALIKES = [("%s:[1 TO 5] %s", "%s:{1 TO 5} %s"), ("%s:[%s TO %s}", "%s:{%s TO %s]"),
+              ("%s:>=18 AND %s:<2", "%s:>18 AND %s:<=2"), ("%s~ %s", "%s~0.5 %s"), ("%s^1.0 %s", "%s^1 %s"),
+              ('"%s %s"~ %s', '"%s %s"~1 %s'), ("%s  AND %s", "%s AND %s"), ("%s AND %s", "%s AND  %s"),
+              ("f:(%s %s)", "f:%s %s"), ("(%s OR %s) AND %s", "%s OR %s AND %s"), ("%s %s", "%s OR %s"),
+              ('"%s"', "%s"), ("f:(%s)", "(f:%s)"), ("-%s %s", "NOT %s %s"), ("%s AND %s", "%s and %s")]
 LETTERS2 = "abcdefghijklmnopqrstuvwxyz"
 
 
@@ -263,6 +268,22 @@ def histories(res, r, quick, T, parser, Prettifier, cases, payloads, dist):
         if i % 20 == 0:
             gc.collect()
     dist["edit_history_calls"] = n_calls
+    # (c) LOOK-ALIKE: two different queries that a lenient key (repr, ==, the words only) takes for the same one,
+    # printed one after the other by the same instance
+    n_look = 0
+    for i in range(40 if quick else 400):
+        a, b = LOOKALIKES[i % len(LOOKALIKES)]
+        ws = tuple(rword(r) for _ in range(4))
+        qa, qb = a % ws[:a.count("%s")], b % ws[:b.count("%s")]
+        if i % 2:
+            qa, qb = qb, qa
+        cfg, inst, name = insts[(i // len(LOOKALIKES)) % len(insts)]
+        history = ["look-alike history #%d on %s" % (i, name)]
+        for q in (qa, qb, qa):
+            history = history + ["parse(%r)" % q, "call"]
+            judge(res, parser, Prettifier, parser.parse(q), cfg, inst, history, cases, payloads, dist)
+            n_look += 1
+    dist["lookalike_history_calls"] = n_look
 
 
 def correspond(model_ok, res):
